@@ -107,6 +107,19 @@ func replay(path string) {
 		if l == "" || strings.HasPrefix(l, "#") {
 			continue
 		}
+		// what the SDK wrote in a recorded case cannot be re-executed from the line (it IS the
+		// output): rows and chain lines are handed to the reference decoder as recorded
+		if strings.HasPrefix(l, "case ") || strings.HasPrefix(l, "row ") || strings.HasPrefix(l, "chain ") {
+			fmt.Fprintln(out, l)
+			continue
+		}
+		// answers / pass-2 lines of direction (b) are regenerated from their build request
+		if f := strings.Fields(l); len(f) > 0 {
+			switch f[0] {
+			case "build", "lseal", "built", "lsealed", "sdkdec", "goopen":
+				continue
+			}
+		}
 		if i := strings.Index(l, " => "); i >= 0 {
 			l = l[:i]
 		}
